@@ -1,1 +1,44 @@
-From SF Require Import Base.Prelude Unsized.Types Unsized.Parse.
+(* C05 - Serialize / initialize / deserialize round-trip with exact size accounting. Statements only. *)
+From SF Require Import Base.Prelude Unsized.Types Unsized.Parse Unsized.Proofs.EncodeParse.
+
+(* serializing produces exactly the announced number of bytes, for every shape and every well-formed value *)
+Theorem C05_encode_size : forall t v, wf t v = true -> zlen (encode t v) = byte_size t v.
+Proof. exact encode_size. Qed.
+
+(* deserializing the serialized bytes yields an equal value and reports the serialized size as extent *)
+Theorem C05_roundtrip :
+  forall ovf t v, ty_ok true t = true -> wf t v = true -> parse ovf t (encode t v) = Ok (v, byte_size t v).
+Proof. exact parse_encode. Qed.
+
+(* ... also when the value is followed by other data (a field of a struct, an element of a list) *)
+Theorem C05_roundtrip_prefix :
+  forall ovf t v tl, ty_ok false t = true -> wf t v = true -> parse ovf t (encode t v ++ tl) = Ok (v, byte_size t v).
+Proof. exact parse_encode_prefix. Qed.
+
+(* the general form: extent and owned on an encoding followed by a tail (empty when the shape ends in RemainingBytes) *)
+Theorem C05_roundtrip_general :
+  forall ovf t last v tl, ty_ok last t = true -> wf t v = true -> (last = true -> tl = []) ->
+    extent ovf t (encode t v ++ tl) = Ok (zlen (encode t v)) /\ owned ovf t (encode t v ++ tl) = Ok v.
+Proof. exact roundtrip. Qed.
+
+(* the program-account discriminant prefix is a leading fixed field: the client helpers' round trip and
+   rejection of a different discriminant are instances (the discriminant check itself is C08) *)
+Theorem C05_discriminant_roundtrip :
+  forall ovf d t v, (0 < length d)%nat -> bytes_ok d = true -> ty_ok true t = true -> wf t v = true ->
+    parse ovf (TStruct [TFixed (FAny (length d)); t]) (d ++ encode t v)
+    = Ok (VStruct [VBytes d; v], Z.of_nat (length d) + byte_size t v).
+Proof.
+  intros ovf d t v Hd Hb Hok Hwf.
+  pose proof (parse_encode ovf (TStruct [TFixed (FAny (length d)); t]) (VStruct [VBytes d; v])) as H.
+  cbn [encode] in H. rewrite app_nil_r in H. rewrite H.
+  - rewrite !byte_size_struct_cons. cbn [byte_size fsize]. f_equal. f_equal. lia.
+  - rewrite ty_ok_struct_cons, ty_ok_struct_one. cbn [ty_ok fsize]. rewrite Hok.
+    destruct (length d); [lia|reflexivity].
+  - rewrite !wf_struct_cons. cbn [wf fsize fvalid]. rewrite Nat.eqb_refl, Hb, Hwf. reflexivity.
+Qed.
+
+Example C05_nonvacuous :
+  let t := TStruct [TFixed (FStruct [FAny 1; FBool]); TList (FAny 1) 4; TUList (TList (FAny 2) 1) 0; TRem] in
+  let v := VStruct [VBytes [7; 1]; VList [[1]; [2]]; VUList [([], VList [[3; 4]]); ([], VList [])]; VBytes [9; 9]] in
+  ty_ok true t = true /\ wf t v = true /\ parse true t (encode t v) = Ok (v, 34).
+Proof. vm_compute. repeat split; reflexivity. Qed.
